@@ -61,10 +61,13 @@ def subterms(t):
 
 
 def symbols(t):
-    """root symbols a term depends on: params, self, storage reads, opaque externals"""
+    """root symbols a term depends on: params, self, storage reads. The *receiver* of a storage read is not
+    descended into (what is read is a fact about the file, whichever way the handle was obtained); its key is."""
     out = set()
-    for x in subterms(t):
-        if not x:
+    todo = [t]
+    while todo:
+        x = todo.pop()
+        if not isinstance(x, tuple) or not x:
             continue
         h = x[0]
         if h == "param":
@@ -72,7 +75,11 @@ def symbols(t):
         elif h == "self":
             out.add(x)
         elif h == "rd":
-            out.add(("rd",) + tuple(x[1:2]))
+            out.add(("rd", x[1]))
+            if len(x) > 3:
+                todo.append(x[3])
+            continue
+        todo.extend(x)
     return out
 
 
